@@ -27,7 +27,8 @@ GOALS = {
     'thorough': ['deferral across a call boundary', 'truncated interval',
                  'quiet poll', 'two processes applied in one batch',
                  'a process runs in a worker',
-                 'a process nested in a compartment'],
+                 'a process nested in a compartment',
+                 'initial global time not 0'],
 }
 STUBS = sched_stubs = [
     'stub processes (pure): symbolic timestep per process or per poll, symbolic '
@@ -86,6 +87,7 @@ def jobs(tier):
                                   par_fixed={'0': p0, '1': p1}))
         J.append(_cfg('parallel-condfresh-N2', 2, 1, 3, 'const', 'fresh', tier,
                       parallel=True, par_fixed={'0': True}))
+        J.append(_cfg('g0-N2', 2, 2, 3, 'const', 'none', tier, g0=3))
         J.append(_cfg('nested-N2', 2, 2, 3, 'const', 'none', tier, nested=True))
         J.append(_cfg('nested-condfresh-N2', 2, 1, 3, 'const', 'fresh', tier,
                       nested=True))
@@ -111,6 +113,8 @@ def jobs(tier):
         J.append(_cfg('parallel-condfresh-N2', 2, 1, 3, 'const', 'fresh', tier,
                       parallel=True))
         J.append(_cfg('nested-N3', 3, 2, 3, 'const', 'none', tier, nested=True))
+        J.append(_cfg('g0-N2', 2, 2, 4, 'const', 'none', tier, g0=5))
+        J.append(_cfg('g0-condfresh-N2', 2, 2, 3, 'const', 'fresh', tier, g0=3))
         J.append(_cfg('dyadic-N2', 2, 3, 3, 'const', 'none', tier,
                       ts_grid=[0.5, 1.5, 0.25, 1.0],
                       iv_grid=[0.75, 1.5, 2.0, 0.5], K=14))
